@@ -107,6 +107,8 @@ enum WOp {
     DropRef(usize),
     Yield,
     Panic,
+    /// drop every reference this thread still holds, one after the other (a burst of drops)
+    DropAll,
 }
 
 #[derive(Clone, Copy, Debug)]
@@ -124,14 +126,18 @@ fn waker_scenario(prop: &str, bytes: &[u8], trace: bool) {
         140..=247 => 1, // different words
         _ => 2,         // different bitmaps
     };
-    let nw = 1 + c.pick(if prop == "C12" { 5 } else { 4 });
+    let nw = 1 + c.pick(if prop == "C12" { 10 } else { 4 });
     let nthreads = 1 + c.pick(3);
     let mut scripts: Vec<Vec<WOp>> = Vec::new();
     for _ in 0..nthreads {
-        let n = 1 + c.pick(5);
+        let n = 1 + c.pick(if prop == "C12" { 8 } else { 5 });
         let mut s = Vec::new();
         for _ in 0..n {
             let w = c.pick(nw);
+            if prop == "C12" && c.chance(24) {
+                s.push(WOp::DropAll);
+                continue;
+            }
             s.push(match c.pick(if prop == "C12" { 10 } else { 8 }) {
                 0..=4 => WOp::Wake(w),
                 5 => WOp::Yield,
@@ -149,6 +155,7 @@ fn waker_scenario(prop: &str, bytes: &[u8], trace: bool) {
         scripts.push(s);
     }
     let recreate = prop == "C12" && c.chance(140);
+    let slow_handlers = c.chance(128);
     let main_wakes_new = c.chance(128);
     let main_holds = c.pick(nw + 1); // main keeps a reference to the first `main_holds` wakers for a while
     let main_drop_after = c.pick(4);
@@ -167,6 +174,11 @@ fn waker_scenario(prop: &str, bytes: &[u8], trace: bool) {
         let log = log.clone();
         let w = s.waker(move |_s, deleted| {
             log.borrow_mut().push((hid, deleted, tick()));
+            // a handler that takes a while (here: a scheduling point), so that other threads can
+            // act while the main thread is in the middle of a collection
+            if slow_handlers {
+                thread::yield_now();
+            }
         });
         (hid, w)
     };
@@ -232,6 +244,14 @@ fn waker_scenario(prop: &str, bytes: &[u8], trace: bool) {
                             }
                         }
                         WOp::Yield => thread::yield_now(),
+                        WOp::DropAll => {
+                            for w in 0..mine.len() {
+                                if let Some(wk) = mine[w].take() {
+                                    recs.push(WRec { kind: 1, w, begin: tick() });
+                                    drop(wk);
+                                }
+                            }
+                        }
                         WOp::Panic => {
                             // unwinding drops every reference this thread still holds
                             for (w, m) in mine.iter().enumerate() {
@@ -376,7 +396,7 @@ fn waker_scenario(prop: &str, bytes: &[u8], trace: bool) {
         }
     }
     let waking_threads = scripts.iter().filter(|s| s.iter().any(|o| matches!(o, WOp::Wake(_)))).count();
-    let drops_mid = scripts.iter().any(|s| s.iter().any(|o| matches!(o, WOp::DropRef(_) | WOp::Panic)));
+    let drops_mid = scripts.iter().any(|s| s.iter().any(|o| matches!(o, WOp::DropRef(_) | WOp::Panic | WOp::DropAll)));
     let mut classes: Vec<&'static str> = vec![["placement:same-word", "placement:different-words", "placement:different-bitmaps"][placement]];
     if scripts.iter().any(|s| s.iter().any(|o| matches!(o, WOp::Panic))) {
         classes.push("drop-by-unwinding");
